@@ -44,6 +44,8 @@ type CLICase struct {
 	Stats     bool   `json:"stats,omitempty"`    // make: --print-stats (the index file is then not written)
 	Fifo      bool   `json:"fifo,omitempty"`     // tar: --input-format tar, the tar stream (files of Case.Files) comes from a FIFO fed by the harness; no request is held
 	AddRoot   bool   `json:"add_root,omitempty"` // tar from a FIFO: --tar-add-root (otherwise the stream starts with a "./" directory)
+	Ignore    int    `json:"ignore,omitempty"`   // chop, cache: number of --ignore indexes, each served by the harness over HTTP (their fetches count as requests)
+	IdxHTTP   bool   `json:"idx_http,omitempty"` // extract, chop, cache, untar: the index to work on is read over HTTP from the harness as well (the first request)
 	Split     int    `json:"split,omitempty"`    // tar from a FIFO: bytes of the tar stream fed before the signal (capped at its length)
 }
 
@@ -57,13 +59,13 @@ const cliMakeArg = "1:1:4"
 // destination base-name lengths around the point where ".<name>.<up to 10 digits>" exceeds NAME_MAX (255)
 var cliDestLens = []int{200, 243, 244, 245, 250, 255}
 
-// cliCmdList: the commands drawn from (with weights). Quick: extract, and make and tar (fed
-// through a FIFO) at a low rate (a handful of children per shard); thorough: all seven.
+// cliCmdList: the commands drawn from (with weights). Quick: extract, and make, tar (fed through
+// a FIFO), cache and chop at a low rate (a handful of children each per shard); thorough: all seven.
 func cliCmdList() []string {
 	if hx.Thorough() {
 		return append([]string{"extract", "extract"}, cliCommands...)
 	}
-	return []string{"extract", "extract", "extract", "extract", "extract", "extract", "make", "tar"}
+	return []string{"extract", "extract", "extract", "extract", "make", "tar", "cache", "chop"}
 }
 
 // genCLI decides with fair coin flips (rapid's integer generators are biased to small values)
@@ -142,6 +144,16 @@ func genCLI(t *rapid.T) (Case, bool) {
 			}
 			cl.Prior = "absent"
 		}
+	}
+	switch cl.Cmd {
+	case "chop", "cache":
+		cl.Ignore = rapid.SampledFrom([]int{0, 0, 1, 2, 2, 3}).Draw(t, "ignore")
+		cl.IdxHTTP = rapid.Bool().Draw(t, "idxhttp")
+	case "extract", "untar":
+		cl.IdxHTTP = rapid.IntRange(0, 3).Draw(t, "idxhttp") == 0
+	}
+	if prep := cl.Ignore + map[bool]int{true: 1}[cl.IdxHTTP]; prep > 0 && rapid.Bool().Draw(t, "kprep") {
+		c.K = rapid.IntRange(1, prep).Draw(t, "kp") // hold a request of the preparatory phase (index fetches)
 	}
 	c.CLI = cl
 	return c, true
@@ -392,7 +404,12 @@ func runCLI(c Case) (o hx.Outcome) {
 		if cl.Inplace {
 			args = append(args, "-k")
 		}
-		args = append(args, "-n", nStr, "-s", "@src", indexPath, dest)
+		if cl.IdxHTTP {
+			objs["idx/main.caibx"] = cliEncodeIndex(idx)
+			args = append(args, "-n", nStr, "-s", "@src", "@idx/main.caibx", dest)
+		} else {
+			args = append(args, "-n", nStr, "-s", "@src", indexPath, dest)
+		}
 		complete = func(map[string][]byte) string {
 			after := cliStat(dest)
 			if !after.Exists {
@@ -412,14 +429,49 @@ func runCLI(c Case) (o hx.Outcome) {
 		} else {
 			priorDesc = "absent"
 		}
+		// --ignore indexes, served over HTTP: index j lists the chunks i with i%3 == j%3 that a seed bit selects
+		ignored := map[[32]byte]bool{}
+		var ignArgs []string
+		for j := 0; j < min(max(cl.Ignore, 0), 4); j++ {
+			f := ref.IndexFile{Flags: idx.Index.FeatureFlags, Min: sz.Min, Avg: sz.Avg, Max: sz.Max}
+			end := uint64(0)
+			for i, ch := range chunks {
+				if i%3 == j%3 && bit(i+17*(j+1)) {
+					ignored[ch.id] = true
+					end += uint64(ch.end - ch.start)
+					f.Items = append(f.Items, ref.IndexItem{End: end, ID: ch.id})
+				}
+			}
+			name := fmt.Sprintf("idx/ign%d.caibx", j+1)
+			objs[name] = ref.EncodeIndex(f)
+			ignArgs = append(ignArgs, "--ignore", "@"+name)
+		}
+		var needed []cliChunk
+		for _, ch := range chunks {
+			if !ignored[ch.id] {
+				needed = append(needed, ch)
+			}
+		}
+		units = len(needed)
+		ixArg := indexPath
+		if cl.IdxHTTP {
+			objs["idx/main.caibx"] = cliEncodeIndex(idx)
+			ixArg = "@idx/main.caibx"
+		}
 		if cl.Cmd == "chop" {
 			p := dx.WriteFile(work, "blob", blob)
-			args = []string{"chop", "-n", nStr, "-s", "@dst", indexPath, p}
+			args = append(append([]string{"chop", "-n", nStr, "-s", "@dst"}, ignArgs...), ixArg, p)
 		} else {
 			cliFill(objs, "src", blob, chunks, nil)
-			args = []string{"cache", "-n", nStr, "-s", "@src", "-c", "@dst", indexPath}
+			args = append(append([]string{"cache", "-n", nStr, "-s", "@src", "-c", "@dst"}, ignArgs...), ixArg)
 		}
-		complete = func(after map[string][]byte) string { return cliStoreMissing(after, "dst", blob, chunks) }
+		complete = func(after map[string][]byte) string {
+			why := cliStoreMissing(after, "dst", blob, needed)
+			if why != "" && len(ignored) > 0 {
+				why += fmt.Sprintf(" (%d of the %d chunks of the index are listed in the --ignore indexes and not required)", len(chunks)-len(needed), len(chunks))
+			}
+			return why
+		}
 
 	case "make":
 		sz = cliMakeSizes
@@ -527,6 +579,10 @@ func runCLI(c Case) (o hx.Outcome) {
 			dst := filepath.Join(work, "dst")
 			os.Mkdir(dst, 0o755)
 			args = []string{"untar", "-i", "-n", nStr, "-s", "@src", indexPath, dst}
+			if cl.IdxHTTP {
+				objs["idx/main.caibx"] = cliEncodeIndex(aidx)
+				args[len(args)-2] = "@idx/main.caibx"
+			}
 			complete = func(map[string][]byte) string { return sameTree(want, listTree(dst)) }
 		}
 
@@ -569,16 +625,22 @@ func runCLI(c Case) (o hx.Outcome) {
 		for i, a := range args {
 			if strings.HasPrefix(a, "@") {
 				args[i] = st.url(prefix + "/" + a[1:])
+				if strings.HasSuffix(a, ".caibx") { // an index object, not a store
+					args[i] = strings.TrimSuffix(args[i], "/")
+				}
 			}
 		}
 	}
 	res := runChild(work, args, st, cliSignal(cl.Sig), openPath, feed)
 	var after map[string][]byte
-	nreq := 0
+	nreq, heldKey := 0, ""
 	if st != nil {
 		var reqs []cliReq
 		after, reqs, _ = st.snapshot()
 		nreq = len(reqs)
+		if k >= 1 && k <= nreq {
+			heldKey = reqs[k-1].Method + " " + filepath.Base(reqs[k-1].Key)
+		}
 	}
 	exit0 := res.Exit == 0 && !res.Signaled
 	said := strings.Contains(res.Stderr, "interrupted")
@@ -587,7 +649,7 @@ func runCLI(c Case) (o hx.Outcome) {
 	sigPrefix := "C07:cli-" + cl.Cmd + ":"
 	how := fmt.Sprintf("SIG%s not sent (request %d was never made; %d requests)", cl.Sig, k, nreq)
 	if res.SignalSent {
-		how = fmt.Sprintf("SIG%s sent while request %d of %d was held, %d answered before", cl.Sig, k, nreq, res.DoneBefore)
+		how = fmt.Sprintf("SIG%s sent while request %d of %d (%s) was held, %d answered before", cl.Sig, k, nreq, cliShortArgs([]string{heldKey})[0], res.DoneBefore)
 		if openPath != "" {
 			how = fmt.Sprintf("SIG%s sent when the child had opened the file", cl.Sig)
 		}
@@ -633,6 +695,12 @@ func runCLI(c Case) (o hx.Outcome) {
 	mid := false
 	if res.SignalSent {
 		o.Class("cli:signal-sent")
+		if strings.HasSuffix(heldKey, ".caibx") { // the signal arrived in the preparatory phase, while an index was being fetched
+			o.Class("cli:index-held", "cli:"+cl.Cmd+":index-held")
+			if strings.Contains(heldKey, " ign") {
+				o.Class("cli:" + cl.Cmd + ":ignore-index-held")
+			}
+		}
 		switch {
 		case openPath != "":
 			mid = !exit0 && said // observed: the verification was cut short by the signal
@@ -678,9 +746,9 @@ func runCLI(c Case) (o hx.Outcome) {
 		}
 	}
 	o.Nontrivial = mid
-	o.Desc = map[string]any{"entry": "cli", "cmd": cl.Cmd, "sig": cl.Sig, "k": k, "n": n, "units": units, "inplace": cl.Inplace, "prior": priorDesc, "dest_len": cl.DestLen, "print_stats": cl.Stats, "fifo": cl.Fifo, "add_root": cl.AddRoot, "split": cl.Split,
+	o.Desc = map[string]any{"entry": "cli", "cmd": cl.Cmd, "sig": cl.Sig, "k": k, "n": n, "units": units, "inplace": cl.Inplace, "prior": priorDesc, "dest_len": cl.DestLen, "print_stats": cl.Stats, "fifo": cl.Fifo, "add_root": cl.AddRoot, "split": cl.Split, "ignore": cl.Ignore, "idx_http": cl.IdxHTTP, "held": cliShortArgs([]string{heldKey})[0],
 		"signal_sent": res.SignalSent, "answered_before_signal": res.DoneBefore, "requests": nreq, "exit": res.Exit}
-	o.Key = fmt.Sprintf("cli/%s/%s/%d/%d/%d/%v/%s/%d/%v/%d/%v", cl.Cmd, cl.Sig, k, n, units, cl.Inplace, priorDesc, res.DoneBefore, exit0, cl.DestLen, cl.Stats) + fmt.Sprintf("/%v/%v/%d/%d", cl.Fifo, cl.AddRoot, cl.Split, len(c.Files))
+	o.Key = fmt.Sprintf("cli/%s/%s/%d/%d/%d/%v/%s/%d/%v/%d/%v", cl.Cmd, cl.Sig, k, n, units, cl.Inplace, priorDesc, res.DoneBefore, exit0, cl.DestLen, cl.Stats) + fmt.Sprintf("/%v/%v/%d/%d/%d/%v", cl.Fifo, cl.AddRoot, cl.Split, len(c.Files), cl.Ignore, cl.IdxHTTP)
 	o.Observed = map[string]any{"args": cliShortArgs(args), "exit": res.Exit, "killed_by_signal": res.Signaled, "signal_sent": res.SignalSent,
 		"answered_before_signal": res.DoneBefore, "requests": nreq, "output": cliTail(res.Stderr, 1500)}
 	return o
@@ -735,15 +803,16 @@ func init() {
 	if !cliEnabled() {
 		return
 	}
-	spec.Rule += "; CLI part (only when the driver provides the freshly built CLI): cases = (command in extract, make -s with and without --print-stats and tar -i -s --input-format tar [--tar-add-root] reading a generated tar stream from a FIFO [quick, make and tar at a low rate], + verify-index, chop, cache, tar -i -s of a directory, untar -i -s [thorough]; SIGINT or SIGTERM; -n 1..4; k; extract: -k or not, destination absent / garbage / partly right, destination base name blob or 200..255 bytes long (near NAME_MAX no temp file fits next to it); target store empty or partly filled); " +
+	spec.Rule += "; CLI part (only when the driver provides the freshly built CLI): cases = (command in extract, make -s with and without --print-stats and tar -i -s --input-format tar [--tar-add-root] reading a generated tar stream from a FIFO and cache / chop with 0..3 --ignore indexes [quick; make, tar, cache, chop at a low rate], + verify-index, tar -i -s of a directory, untar -i -s [thorough]; the --ignore indexes are, and the index to work on (extract, chop, cache, untar) may be, fetched over HTTP from the harness, so that the held request can be an index fetch of the preparatory phase; SIGINT or SIGTERM; -n 1..4; k; extract: -k or not, destination absent / garbage / partly right, destination base name blob or 200..255 bytes long (near NAME_MAX no temp file fits next to it); target store empty or partly filled); " +
 		"the harness serves the chunks over HTTP, holds the k-th request and all behind it, signals the child, releases, and lets the child finish on its own (tar from a FIFO: no request is held; the harness feeds the first `split` bytes of the stream, waits until the child has read them, signals, then feeds the rest and closes; verify-index: signal when the child has opened a 256 MiB sparse file that is corrupt in its last byte); " +
-		"oracle: exit status 0 => output file == blob / every chunk of the index valid in the harness store / index written tiles the input (make --print-stats writes no index: every chunk of the reference index of the input valid in the store) / unpacked tree == source; extract without -k and exit status != 0 => destination path unchanged (existence, inode, bytes, mode, mtime). " +
+		"oracle: exit status 0 => output file == blob / every chunk of the index (minus the chunks the --ignore indexes list) valid in the harness store / index written tiles the input (make --print-stats writes no index: every chunk of the reference index of the input valid in the store) / unpacked tree == source; extract without -k and exit status != 0 => destination path unchanged (existence, inode, bytes, mode, mtime). " +
 		"non-trivial CLI case = the signal was sent while a request was held after at least one request had been answered; distinct by (command, signal, k, n, units, -k, prior, answered-before, exit 0?)"
 	spec.Required = append(spec.Required, "cli:extract", "cli:extract:inplace", "cli:extract:tmpfile", "cli:sig-INT", "cli:sig-TERM",
 		"cli:signal-delivered-mid-flight", "cli:exit-0", "cli:exit-nonzero", "cli:exit-nonzero:interrupted",
 		"cli:extract:tmpfile-interrupted-mid-flight", "cli:extract:inplace-interrupted-mid-flight",
 		"cli:extract:longname-tmpfile-existing-dest", "cli:make", "cli:make:index:mid-flight", "cli:make:print-stats:mid-flight",
-		"cli:tar:fifo", "cli:tar:fifo:add-root", "cli:tar:fifo:mid-flight")
+		"cli:tar:fifo", "cli:tar:fifo:add-root", "cli:tar:fifo:mid-flight",
+		"cli:cache", "cli:cache:mid-flight", "cli:cache:ignore-index-held", "cli:cache:index-held", "cli:chop", "cli:chop:mid-flight", "cli:chop:ignore-index-held", "cli:extract:index-held")
 	if hx.Thorough() {
 		for _, cmd := range cliCommands[1:] {
 			if cmd == "make" {
@@ -761,11 +830,12 @@ func TestCLIEnum(t *testing.T) {
 	if !cliEnabled() {
 		t.Skip("VERIF_DESYNC_BIN not set")
 	}
-	job, total := -1, 0
+	job, total, flip := -1, 0, 0
 	for _, sig := range []string{"INT", "TERM"} {
 		for _, inplace := range []bool{false, true} {
 			for _, prior := range []string{"absent", "garbage", "partial"} {
-				for _, n := range []int{1, 3} {
+				flip++ // -n alternates between 1 and 3 from one combination to the next
+				for _, n := range []int{[]int{1, 3}[flip%2]} {
 					for _, k := range []int{1, 2, 6, 40} {
 						job++
 						if job%hx.Shards() != hx.Shard() {
@@ -787,7 +857,7 @@ func TestCLIEnum(t *testing.T) {
 	// destination must survive whatever the command does about the temp file
 	for i, dl := range []int{243, 244, 250, 255} {
 		for j, prior := range []string{"garbage", "partial"} {
-			for _, k := range []int{2, 6} {
+			for _, k := range []int{[]int{2, 6}[(i+j)%2]} {
 				job++
 				if job%hx.Shards() != hx.Shard() {
 					continue
@@ -807,7 +877,8 @@ func TestCLIEnum(t *testing.T) {
 	mtotal := 0
 	for _, stats := range []bool{false, true} {
 		for _, sig := range []string{"INT", "TERM"} {
-			for _, n := range []int{1, 3} {
+			flip++
+			for _, n := range []int{[]int{1, 3}[flip%2]} {
 				for _, k := range []int{1, 2, 5, 9} {
 					job++
 					if job%hx.Shards() != hx.Shard() {
@@ -850,6 +921,47 @@ func TestCLIEnum(t *testing.T) {
 		}
 	}
 	hx.AddNote("cli_fixed_tar_fifo_cases", ttotal)
+	// cache and chop: the signal arrives while an index of the preparatory phase (the index to work on,
+	// one of several --ignore indexes) or a chunk request is held
+	ctotal := 0
+	for i, v := range []struct {
+		cmd     string
+		ignore  int
+		idxHTTP bool
+		ks      []int
+	}{
+		{"cache", 0, false, []int{1, 4}}, {"cache", 0, true, []int{1, 3}}, {"cache", 2, false, []int{1, 2, 5}}, {"cache", 3, true, []int{1, 2, 3, 4, 7}},
+		{"chop", 2, false, []int{1, 2, 5}}, {"chop", 1, true, []int{1, 2, 4}},
+	} {
+		for j, k := range v.ks {
+			job++
+			if job%hx.Shards() != hx.Shard() {
+				continue
+			}
+			c := Case{Entry: "cli", Point: "http", K: k, N: []int{1, 3}[(i+j)%2], Sizes: gen.Sizes{Min: 64, Avg: 128, Max: 256},
+				Pieces: []gen.Piece{{Kind: "rand", Len: 2400, Seed: 96}},
+				CLI:    &CLICase{Cmd: v.cmd, Sig: []string{"INT", "TERM"}[(i+j)%2], Prior: "absent", PriorSeed: 0x3c5a96e1d2b4f078, Ignore: v.ignore, IdxHTTP: v.idxHTTP}}
+			if !hx.Case(t, spec, c) {
+				return
+			}
+			ctotal++
+		}
+	}
+	// extract with the index fetched over HTTP: held index fetch = a signal before the assembly starts
+	for i, inplace := range []bool{false, true} {
+		job++
+		if job%hx.Shards() != hx.Shard() {
+			continue
+		}
+		c := Case{Entry: "cli", Point: "http", K: 1, N: 1 + 2*i, Sizes: gen.Sizes{Min: 64, Avg: 128, Max: 256},
+			Pieces: []gen.Piece{{Kind: "rand", Len: 2400, Seed: 99}},
+			CLI:    &CLICase{Cmd: "extract", Sig: []string{"INT", "TERM"}[i], Inplace: inplace, Prior: "garbage", PriorSeed: 5, PriorLen: 500, IdxHTTP: true}}
+		if !hx.Case(t, spec, c) {
+			return
+		}
+		ctotal++
+	}
+	hx.AddNote("cli_fixed_prep_phase_cases", ctotal)
 }
 
 // TestCLISelf checks the machinery of the CLI part against stand-ins for the CLI whose behaviour
